@@ -86,6 +86,8 @@ def sym_eq(it, a, b):
                 return a == b
             return mk_bool(zb(a) == zb(b))
         return V.int_cmp("==", a if not isinstance(a, SBool) else mk_int(zi(a), 0, 1), b if not isinstance(b, SBool) else mk_int(zi(b), 0, 1))
+    if isinstance(a, V.SFP) or isinstance(b, V.SFP):
+        return V.fp_cmp("==", a, b)
     if isinstance(a, SFloatTab) or isinstance(b, SFloatTab):
         return V.float_tab_cmp("==", a, b)
     strs = (str, bytes, SStr)
@@ -174,6 +176,8 @@ def compare(it, op, a, b):
         else:
             e = {"<": z3.ULT(x, y), "<=": z3.ULE(x, y), ">": z3.UGT(x, y), ">=": z3.UGE(x, y)}[o]
         return mk_bool(e)
+    if isinstance(a, V.SFP) or isinstance(b, V.SFP):
+        return V.fp_cmp(o, a, b)
     if isinstance(a, V.SReal) or isinstance(b, V.SReal):
         x, y = V.zr(a), V.zr(b)
         return mk_bool({"<": x < y, "<=": x <= y, ">": x > y, ">=": x >= y}[o])
@@ -333,6 +337,12 @@ def binop(it, op, a, b, aug=False):
         if f is None:
             raise Unsupported("bit-vector operator " + t.__name__)
         return V.mk_bv(f(), w, sg)
+    # IEEE doubles (z3 FloatingPoint)
+    if isinstance(a, V.SFP) or isinstance(b, V.SFP):
+        o = {ast.Add: "+", ast.Sub: "-", ast.Mult: "*", ast.Div: "/"}.get(t)
+        if o is None:
+            raise Unsupported("floating-point operator " + t.__name__)
+        return V.fp_binop(o, a, b)
     # exact reals (summation of table entries)
     if isinstance(a, V.SReal) or isinstance(b, V.SReal):
         if t is ast.Add and isinstance(a, (V.SReal, float, int)) and isinstance(b, (V.SReal, float, int)):
@@ -1561,6 +1571,8 @@ def b_filter(it, f, xs):
 
 def t_int(it, x=0, *base):
     x = it.resolve(x)
+    if isinstance(x, V.SFP):
+        return V.fp_trunc(x)
     if isinstance(x, SFloatTab):
         return V.float_tab_trunc(x)
     if isinstance(x, SInt):
